@@ -6,6 +6,6 @@ CONSTANTS D <- MCD
   MaxRegs = 1
   Locked = TRUE
 SPECIFICATION MCSpec
-INVARIANTS NoCrash Exclusion SeesCompleted ReadersAreRunning
+INVARIANTS NoCrash Exclusion SeesCompleted ReadersAreRunning LockInd
 PROPERTIES StableUnderReaders
 CHECK_DEADLOCK FALSE
